@@ -1,7 +1,7 @@
 """C15 - scheme objects survive marshalling; length accounting exact (structure, lengths, rejection)."""
 from .. import marshal
 
-EXPL = ('Value round-trip equality is NOT decided. Decided for every marshal/unmarshal pair of WKD-IBE and LQ-IBE, both '
+EXPL = ('(R-LANES) byte-lane abstract interpretation (a value is a vector of byte lanes: zero, one named source byte, or mixed; shifts by multiples of 8, byte masks, or/plus, casts, memcpy in the target byte order, helper calls inlined) shows that the four wire bytes of a free-slot index carry exactly the four bytes of idx in big-endian order and that unmarshal assembles idx from exactly those bytes - for all 2^32 index values. Value round-trip equality is NOT decided. Decided for every marshal/unmarshal pair of WKD-IBE and LQ-IBE, both '
         'encodings, signatures on/off, several slot counts: (R-FOOT) buffer pointers are tracked as offsets affine in the '
         'slot count (overlay member offsets, `encoded + 1`, `&b[i]`, nested FreeSlot/field serialisers followed); the bytes '
         'marshal writes and unmarshal reads tile exactly [0, marshalledLength(l, signatures)) with no gap, overlap or '
